@@ -103,7 +103,9 @@ CLAIMS["C13"] = dict(
     text=("Proved for every middleware list: applyMiddleware returns chain(mws, scope, h, 0) and applyRouteMiddleware the two route chains, where chain applies each entry whose "
           "scope intersects exactly once, earlier entries outermost (abstract application app(m,h)); WithMiddleware appends (m[i], RouteHandler, route-specific) in order and rejects "
           "nil; NewRoute's chains are built over the route's final list, options are applied in order and all of them, and NewRoute never writes into the router's middleware "
-          "array (frame obligation; this exposed a genuine sharing defect, repaired). Not decided: New's wiring of the special handlers, DefaultOptions, middleware bodies."),
+          "array (frame obligation; this exposed a genuine sharing defect, repaired). New wires the four special handlers (no-route, no-method, automatic OPTIONS, trailing-slash redirect) "
+          "through applyMiddleware with their own scope over the router's final middleware list; ServeHTTP runs route.hall (the chain of global and route middleware) on both the direct "
+          "and the ignored-trailing-slash path. Not decided: DefaultOptions, middleware bodies."),
     design_ref="DESIGN.md section 4 C13, section 9",
     note=TRUSTED + " Assumed contracts: MiddlewareFunc values are abstract (app); RouteOption implementations outside the package obey the option contract.")
 CLAIMS["C18"] = dict(
@@ -195,8 +197,9 @@ CLAIMS["C11"] = dict(
           "runs iff the method is OPTIONS, automatic replies are on and some method serves the host and path directly or by an ignored trailing slash (for '*': some non-OPTIONS "
           "method has routes), and the set of method keys written to the Allow builder is exactly that set, followed by OPTIONS; otherwise with method-not-allowed on, the "
           "no-method handler runs iff some OTHER method serves the request and the keys written are exactly those; otherwise the no-route handler runs; every lazy lookup of the "
-          "Allow loops is made with the request's own host and escaped path. Not decided: the byte content of the header value (separator placement; the ghost record is tied to "
-          "the WriteString calls by assert-at/ghost-set anchors), the handlers' bodies."),
+          "Allow loops is made with the request's own host and escaped path. NOT proved, bounded only: the byte content of the header value and the response status - the stand-in "
+          "standins/allow_test.go compares both with the documented answer for every unserved request of a 20-request probe list (including escaped paths, CONNECT, OPTIONS *) over all "
+          "sets of <=2 (quick) / <=3 (thorough) registrations from 13 (method, pattern) pairs and all 8 combinations of auto-OPTIONS / 405 / ignore-trailing-slash. Not decided: the handlers' bodies."),
     design_ref="DESIGN.md section 4 C11, section 9",
     note=TRUSTED + " Assumed: the contract of (*iTree).lookup, strings.Builder Len/WriteString over ghost length, method root keys are non-empty (precondition root-keys).")
 
